@@ -2370,10 +2370,10 @@ package ucfg
 //@ requires !rvValid(old) || nilableKind(rvKind(old))
 //@ requires hasOld(old) ==> rvKind(old) == 23
 //@ at-call reifyDoArray requires !hasOld(entry(old)) ==> start == 0 && rvLen(to) == len(arr) && rvver(rvRootOf(to)) == zeroVer()
-//@ at-call reifyDoArray requires hasOld(entry(old)) && policyIs(entry(opts), cfgReplaceValue) ==> start == 0 && rvLen(to) == len(arr) && rvver(rvRootOf(to)) == zeroVer()
+//@ at-call reifyDoArray requires hasOld(entry(old)) && (policyIs(entry(opts), cfgReplaceValue) || policyIs(entry(opts), cfgArrReplaceValue)) ==> start == 0 && rvLen(to) == len(arr) && rvver(rvRootOf(to)) == zeroVer()
 //@ at-call reifyDoArray requires hasOld(entry(old)) && policyIs(entry(opts), cfgArrAppend) && len(arr) + rvLen(entry(old)) < 9223372036854775807 ==> start == rvLen(entry(old)) && rvLen(to) == len(arr) + rvLen(entry(old)) && holdsCopy(rvSlice(to, 0, rvLen(to)), entry(old))
 //@ at-call reifyDoArray requires hasOld(entry(old)) && policyIs(entry(opts), cfgArrPrepend) && len(arr) + rvLen(entry(old)) < 9223372036854775807 ==> start == 0 && rvLen(to) == len(arr) + rvLen(entry(old)) && holdsCopy(rvSlice(to, len(arr), rvLen(to)), entry(old))
-//@ at-call reifyDoArray requires hasOld(entry(old)) && !policyIs(entry(opts), cfgReplaceValue) && !policyIs(entry(opts), cfgArrAppend) && !policyIs(entry(opts), cfgArrPrepend) ==> start == 0 && (len(arr) >= rvLen(entry(old)) ==> rvLen(to) == len(arr)) && (len(arr) < rvLen(entry(old)) ==> rvLen(to) == rvLen(entry(old))) && holdsCopy(rvSlice(to, 0, rvLen(to)), entry(old))
+//@ at-call reifyDoArray requires hasOld(entry(old)) && !policyIs(entry(opts), cfgReplaceValue) && !policyIs(entry(opts), cfgArrReplaceValue) && !policyIs(entry(opts), cfgArrAppend) && !policyIs(entry(opts), cfgArrPrepend) ==> start == 0 && (len(arr) >= rvLen(entry(old)) ==> rvLen(to) == len(arr)) && (len(arr) < rvLen(entry(old)) ==> rvLen(to) == rvLen(entry(old))) && holdsCopy(rvSlice(to, 0, rvLen(to)), entry(old))
 
 //@ func reifySlice :: opts, tTo, val -> r, err
 //@ props C06 C07
